@@ -79,14 +79,16 @@ static void exec_schedule(const Case &c, const std::vector<long> &deliveries, Ou
     std::string site;        // resumption point the next call starts from
     bool done = false;
     size_t nd = deliveries.size();
+    bool called = false;
     for(size_t di = 0; di <= nd && !done; di++) {
         long d;
         if(di < nd) d = deliveries[di];
-        else { if(avail >= n) break; d = -1; }          // implicit final "rest"
+        else { if(avail >= n && called) break; d = -1; }          // implicit final "rest" (also the only call for an empty encoding)
         if(d < 0 || (size_t)d > n - avail) d = (long)(n - avail);
         if(d == 0) o.empties++;
         avail += (size_t)d;
         status_progress();
+        called = true;
         o.work += (avail - off) + 64;
         DecResult r = decode_call(c.td, c.sy, &st, c.S.data() + off, avail - off);
         EV.ev("deliver %ld avail %zu off %zu -> %s %zu", d, avail, off, r.aborted ? "ABORT" : rc_name(r.code), r.consumed);
